@@ -1,0 +1,7 @@
+//go:build !verif
+
+package dastard
+
+// verifC16Point marks a step boundary of saveState for the crash-point checks of the
+// verification harness (/verif, property C16). In the normal build it does nothing.
+func verifC16Point(string) {}
